@@ -24,10 +24,11 @@ type SpecEnv struct {
 	callee  bool // evaluating a callee's contract: no access to the caller's cells
 	depth   int
 	loopPre *State
+	pkg     *ssa.Package // callee contracts: the callee's package, for its package-level variables
 }
 
 func (e *SpecEnv) clone() *SpecEnv {
-	n := &SpecEnv{fx: e.fx, cur: e.cur, old: e.old, names: map[string]SV{}, bound: map[string]SV{}, callee: e.callee, depth: e.depth, loopPre: e.loopPre}
+	n := &SpecEnv{fx: e.fx, cur: e.cur, old: e.old, names: map[string]SV{}, bound: map[string]SV{}, callee: e.callee, depth: e.depth, loopPre: e.loopPre, pkg: e.pkg}
 	for k, v := range e.names {
 		n.names[k] = v
 	}
@@ -162,6 +163,7 @@ func (fx *fnExec) initGhosts() {
 	}
 }
 
+var rangeNameRe = regexp.MustCompile(`^range(\d+)_(n|seen)$`)
 var ordRe = regexp.MustCompile(`^(.*)@(\d+)$`)
 
 func (fx *fnExec) lookupCell(name string) (ssa.Value, bool) {
@@ -355,6 +357,16 @@ func (fx *fnExec) evalIdent(name string, env *SpecEnv) SV {
 	if name == "nil" {
 		return Lit{big.NewInt(0)}
 	}
+	// range<k>_n / range<k>_seen: number of entries delivered so far by the k-th `range` over a map, and their key set
+	if m := rangeNameRe.FindStringSubmatch(name); m != nil {
+		g := "$range" + m[1]
+		if m[2] == "n" {
+			g += "#n"
+		}
+		if v, ok := env.cur.ghost[g]; ok {
+			return v
+		}
+	}
 	if !env.callee {
 		if c, ok := fx.lookupCell(name); ok {
 			if a, isAlloc := c.(*ssa.Alloc); isAlloc && !isCellAlloc(a) && !isArrayBacking(a) {
@@ -383,9 +395,13 @@ func (fx *fnExec) evalIdent(name string, env *SpecEnv) SV {
 		fx.declareFun(d.Name, nil, d.Ret)
 		return Sc{Term{d.Name, d.Ret}, nil}
 	}
-	// package-level variables of the function's package
-	if !env.callee && fx.fn.Pkg != nil {
-		if g, ok := fx.fn.Pkg.Members[name].(*ssa.Global); ok {
+	// package-level variables of the function's package (of the callee's package in a callee's contract)
+	gpkg := env.pkg
+	if gpkg == nil && !env.callee && fx.fn != nil {
+		gpkg = fx.fn.Pkg
+	}
+	if gpkg != nil {
+		if g, ok := gpkg.Members[name].(*ssa.Global); ok {
 			return fx.loadIn(env.cur, Ad{Cell: g, Typ: g.Type().(*types.Pointer).Elem()}, false)
 		}
 	}
